@@ -548,3 +548,68 @@ def gen_minimize():
 
 
 GENERATORS = GENERATORS + (('Minimize', gen_minimize),)
+
+
+# ---------------------------------------------------------------------------------------------------------------------
+
+def gen_fromdict_row():
+    """`Context.fromdict`: the row validator `_make_set` and the cell expression of `bools`."""
+    tree = _src('contexts.py')
+    fn = _method(tree, 'Data', 'fromdict')
+    inner = [st for st in fn.body if isinstance(st, ast.FunctionDef) and st.name == '_make_set']
+    if len(inner) != 1:
+        raise Decline('fromdict: no unique inner function _make_set')
+    ms = inner[0]
+    if [a.arg for a in ms.args.args] != ['r', 'indexes'] or [ast.unparse(d) for d in ms.args.defaults] != ['set(indexes)']:
+        raise Decline('_make_set: signature changed')
+    stmts = [ast.unparse(s) for s in fn.body]
+    if 'indexes = tuple(range(len(properties)))' not in stmts:
+        raise Decline('fromdict: `indexes = tuple(range(len(properties)))` is gone')
+    want_bools = 'bools = [tuple((i in intent for i in indexes)) for intent in map(_make_set, context)]'
+    if want_bools not in stmts:
+        raise Decline('fromdict: the construction of bools changed')
+    body = _nodoc(ms.body)
+    if (len(body) < 2 or ast.unparse(body[0]) != 'result = set(r)' or ast.unparse(body[-1]) != 'return result'):
+        raise Decline('_make_set: first / last statement changed')
+    sets = {'result': 'r.eraseDups', 'r': 'r', 'indexes': 'indexes'}
+
+    def length(node):
+        if (isinstance(node, ast.Call) and isinstance(node.func, ast.Name) and node.func.id == 'len' and len(node.args) == 1
+                and isinstance(node.args[0], ast.Name) and node.args[0].id in sets):
+            return '%s.length' % sets[node.args[0].id]
+        raise Decline('_make_set: unsupported number %s' % ast.unparse(node))
+
+    def cond(node):
+        if isinstance(node, ast.Compare) and len(node.ops) == 1 and isinstance(node.ops[0], ast.NotEq):
+            return '(%s != %s)' % (length(node.left), length(node.comparators[0]))
+        if isinstance(node, ast.UnaryOp) and isinstance(node.op, ast.Not):
+            c = node.operand
+            if (isinstance(c, ast.Call) and isinstance(c.func, ast.Attribute) and c.func.attr == 'issubset'
+                    and isinstance(c.func.value, ast.Name) and c.func.value.id in sets and len(c.args) == 1
+                    and isinstance(c.args[0], ast.Name) and c.args[0].id in sets):
+                return '!(%s.all %s.contains)' % (sets[c.func.value.id], sets[c.args[0].id])
+        raise Decline('_make_set: unsupported condition %s' % ast.unparse(node))
+    conds = []
+    for st in body[1:-1]:
+        if not (isinstance(st, ast.If) and not st.orelse and len(st.body) == 1 and isinstance(st.body[0], ast.Raise)):
+            raise Decline('_make_set: a statement that is not a guard: %s' % ast.unparse(st)[:60])
+        exc = st.body[0].exc
+        if not (isinstance(exc, ast.Call) and isinstance(exc.func, ast.Name) and exc.func.id == 'ValueError'):
+            raise Decline('_make_set: a guard raises something else than ValueError')
+        conds.append(cond(st.test))
+    if not conds:
+        raise Decline('_make_set: no guards')
+    return '\n'.join([
+        '/- GENERATED by harness/extract2.py from Context.fromdict (_make_set, bools) in concepts/contexts.py — do not edit.',
+        '   `indexes` = set(range(len(properties))) as a list of Int; `set(r)` = r.eraseDups. -/',
+        'namespace FCA.Generated', '',
+        '/-- true iff `_make_set(r)` raises `ValueError` for a row of ints -/',
+        'def fromdict_rowRejects (np : Nat) (r : List Int) : Bool :=',
+        '  let indexes : List Int := (List.range np).map Int.ofNat',
+        '  ' + ' || '.join(conds), '',
+        '/-- the cells of one row: `tuple(i in intent for i in indexes)` -/',
+        'def fromdict_rowCells (np : Nat) (r : List Int) : List Bool :=',
+        '  (List.range np).map fun i => r.eraseDups.contains (Int.ofNat i)', '', 'end FCA.Generated', ''])
+
+
+GENERATORS = GENERATORS + (('FromdictRow', gen_fromdict_row),)
